@@ -359,7 +359,12 @@ func vfC08(c *hx.Ctx) {
 			return v
 		}
 		c.UnitBudget = hx.Pick(c, 10*time.Second, 120*time.Second)
+		// no state cache: it identifies executions by their happens-before order, which is sound only if every shared access is
+		// ordered by it — whether the feedback buffers are is the question here
+		saved := hx.NoCache
+		hx.NoCache = true
 		c.Explore("concurrent/"+cf.name, map[string]any{"threads": nthreads, "calls_per_thread": 2}, hx.Pick(c, 2, 3), run)
+		hx.NoCache = saved
 	}
 }
 
